@@ -237,7 +237,7 @@ let () =
                  let act = Array.init m (fun j -> act_of s' (nat_of_int j)) in
                  let uns = Array.init m (fun j -> uns_of s' (nat_of_int j)) in
                  Hashtbl.replace mact_at k (act, uns);
-                 Printf.printf "m %d ok T%d P" k (if tie s' then 1 else 0);
+                 Printf.printf "m %d ok T%d W%d P" k (if tie s' then 1 else 0) (if act_invb s' then 1 else 0);
                  print_qs pos;
                  print_string " B";
                  let label = Hashtbl.create 8 in
